@@ -542,9 +542,9 @@ Fixpoint zrange (lo : Z) (n : nat) : list Z :=
   match n with O => [] | S k => lo :: zrange (lo + 1) k end.
 
 Definition unparsable (tier : Z) : list string :=
-  [""; "x"; "1x"; " 1"; "99999999999999999999"] ++
-  (if Z.eqb tier 0 then [] else ["0x1"; "1_0"; "-"; "1.0"; "0 "; "--1"; "9223372036854775808"]).
-Definition respelled : list string := ["+1"; "01"; "-0"; "00"].
+  [""; "x"; "1x"; " 1"; "99999999999999999999"; "0x1"; "0b1"; "0o2"; "1_0"; "0_1"] ++      (* indices are decimal: the base-0 spellings are no numbers *)
+  (if Z.eqb tier 0 then [] else ["0X1"; "-"; "1.0"; "0 "; "--1"; "9223372036854775808"; "18446744073709551615"]).
+Definition respelled : list string := ["+1"; "01"; "-0"; "00"; "08"; "010"; "0001"].
 
 Definition index_texts (tier : Z) (x : arg) : list string :=
   map Z_to_string (zrange (-2) (List.length (elems_of x) + 5)) ++ respelled ++ unparsable tier.
